@@ -430,46 +430,27 @@ def simplify_constraints(constraints):
 
     # Iterate over the current and next contiguous constraints of this list:
     i = 0
-    j = 0
 
     while i < len(constraints) - 1:
-        j = i + 1
-
-        cur = constraints[i]
-        nxt = constraints[j]
-        cur_comp = cur.comparator
-        nxt_comp = nxt.comparator
+        cur_comp = constraints[i].comparator
+        nxt_comp = constraints[i + 1].comparator
 
         # If current comparator is ">" or ">=" and next comparator is "=", ">" or ">=",
         if cur_comp in (">", ">=") and nxt_comp in ("=", ">", ">="):
-            # discard next constraint
-            constraints.pop(j)
+            # discard next constraint and check the current one against the new next
+            constraints.pop(i + 1)
 
         # If current comparator is "=", "<" or "<="  and next comparator is <" or <=",
-        if cur_comp in ("=", "<", "<=") and nxt_comp in ("<", "<="):
+        elif cur_comp in ("=", "<", "<=") and nxt_comp in ("<", "<="):
             # discard current constraint
             constraints.pop(i)
-            # Previous constraint becomes current if if exists.
+            # Previous constraint becomes current if it exists: it is checked
+            # again against the new next constraint.
             if i > 0:
                 i -= 1
 
-        # If there is a previous constraint:
-        if i > 0:
-
-            prv = constraints[i - 1]
-            prv_comp = prv.comparator
-
-            # If previous comparator is ">" or ">=" and current comparator is "=", ">" or ">=",
-            if prv_comp in (">", ">=") and cur_comp in ("=", ">", ">="):
-                # discard current constraint
-                constraints.pop(i)
-
-            # If previous comparator is "=", "<" or "<=" and current comparator is <" or <=",
-            if prv_comp in ("=", "<", "<=") and cur_comp in ("<", "<="):
-                # discard previous constraint.
-                constraints.pop(i - 1)
-
-        i += 1
+        else:
+            i += 1
 
     # Concatenate the "unequal constraints" list and the filtered "constraints" list
     # Sort by version and return.
